@@ -5,8 +5,11 @@
      SV <struct> <desc> <dbtype> <vals>   | ok <bytes> [rt <deser outcome>]  |  err <E>
      DV <struct> <desc> <dbtype> <cells>  | ok <vals> | tck <E> | des <E> | panic
      SR <struct> <desc> <cols> <vals>     | ok <bytes> [rt <deser outcome>]  |  err <E>
+     NV <struct> <outer perm> <inner perm> <flags> <vals> | ok <bytes> rt ok <vals>   (nested derived structs)
+     PR <struct> <desc> <cols> <vals>     | as SR, but the ColumnSpecs are decoded by the driver from a PREPARED response
      DR <struct> <desc> <cols> <cells>    | ok <vals> | tck <E> | des <E> | panic
    desc   := flags '/' [field {';' field}]          flags: o(rdered) x(forbid excess) n(o name checks) -
+             S = the struct derives Serialize* only (no round trip part expected)
    field  := ident ['>' rename] ':' (ty | '{' desc '}') [':' attrs]
              ty: i=i32 t=String I=Option<i32> T=Option<String>; attrs: s(kip) m(allow_missing)
              d(efault_when_null); '{..}' = #[scylla(flatten)] of a nested struct
@@ -253,7 +256,8 @@ let verdict case impl =
             "viol roundtrip rejected-but-documented-accept model=" ^ mrt
           | _ -> "diff roundtrip model=" ^ mrt
         end
-      | None, TUdt _ when String.length impl_ser >= 2 && String.sub impl_ser 0 2 = "ok" ->
+      | None, TUdt _ when String.length impl_ser >= 2 && String.sub impl_ser 0 2 = "ok"
+                          && not (has 'S' (fst (parse_desc_text desc))) ->
         "error missing-roundtrip"
       | _ -> "ok"
     end
@@ -266,7 +270,8 @@ let verdict case impl =
     let m = de_str (gen_typeck_value d t) (fun () -> gen_deser_value d db cells) in
     let doc = match t with TNative _ -> Some Reject | TUdt db -> doc_de_value d db cells in
     verdict_de ~model:m ~impl:(String.concat " " impl) ~doc
-  | ["SR"; _; desc; cols; vals] ->
+  | [("SR" | "PR"); _; desc; cols; vals] ->
+    (* PR = SR on column specs the driver decoded itself from an encoded PREPARED response *)
     let vals = ref (cells_of vals) in
     let d = rdesc_of (parse_desc_text desc) vals in
     let cols = db_of cols in
@@ -294,7 +299,8 @@ let verdict case impl =
           | _ -> "diff roundtrip model=" ^ mrt
         end
       | Some _, None -> "error round-trip-output-for-a-flatten-struct"
-      | None, Some _ when String.length impl_ser >= 2 && String.sub impl_ser 0 2 = "ok" ->
+      | None, Some _ when String.length impl_ser >= 2 && String.sub impl_ser 0 2 = "ok"
+                          && not (has 'S' (fst (parse_desc_text desc))) ->
         "error missing-roundtrip"
       | None, _ -> "ok"
     end
@@ -308,6 +314,13 @@ let verdict case impl =
        if List.length cells <> List.length cols then "error cell-count" else
        let m = de_str (gen_typeck_row d ls cols) (fun () -> gen_deser_row d ls cols cells) in
        verdict_de ~model:m ~impl:(String.concat " " impl) ~doc:(doc_de_row d ls cols cells))
+  | ["NV"; _; _; _; _; vals] ->
+    (* nested derived structs: no model; the property itself on the implementation's output: a valid
+       DB type (any outer / inner field order, extras, absent allow_missing inner field) must be
+       accepted and the value must come back *)
+    (match impl with
+     | ["ok"; _; "rt"; "ok"; back] -> if back = vals then "ok" else "viol nested-value-not-restored expected=" ^ vals
+     | _ -> "viol nested-valid-input-not-round-tripped")
   | ["XD"; sid; registered; derived] ->
     (* descriptor self-check: the runner derived a descriptor from the struct's attribute text in
        its own source and compares it with the hand-written registered one *)
